@@ -108,6 +108,45 @@ Definition show_cres (r : cres) : string :=
 Definition show_mres_only (x : mres * list event * list Z) : string :=
   let '(r, _, _) := x in show_fields [("res", show_mres false r)].
 
+
+(** [copy()] (T: Copy) of a consumer / builder: a bitwise copy has the same state, so the model's
+    copy IS the original state; the line shows the original's view, the copy's view, what the copy
+    then yields (drained from the front / built), and the original's view afterwards *)
+Definition c_step_front (c : consumer) : consumer :=
+  match c_next c with Some (_, c') => c' | None => c end.
+Definition c_step_back (c : consumer) : consumer :=
+  match c_next_back c with Some (_, c') => c' | None => c end.
+Fixpoint c_drain (fuel : nat) (c : consumer) : list Z :=
+  match fuel with
+  | O => []
+  | S f => match c_next c with
+           | Some (Some i, c') => i :: c_drain f c'
+           | _ => []
+           end
+  end.
+Definition show_oslice (o : option (list Z)) : string :=
+  match o with Some l => show_ids false l | None => "UB" end.
+Definition copy_line (kind : Z) (N a b : nat) : string :=
+  if (kind =? 0)%Z then
+    let c := Nat.iter b c_step_back (Nat.iter a c_step_front (c_new (zseq 1 N))) in
+    let cp := c in
+    show_fields [("orig", show_oslice (c_as_slice c));
+                 ("copy", show_oslice (c_as_slice cp));
+                 ("drain", show_ids false (c_drain (S N) cp));
+                 ("after", show_oslice (c_as_slice c))]
+  else
+    let bd := fold_left (fun bd x => fst (b_push bd x)) (zseq 1 a) (b_new N) in
+    let cp := bd in
+    let vw (x : builder) := show_oslice (b_as_slice x) ++ "#" ++ show_nat (b_len x) ++ show_bool (b_is_full x) in
+    show_fields [("orig", vw bd);
+                 ("copy", vw cp);
+                 ("build", match b_build cp with
+                           | None => "UB"
+                           | Some None => "PANIC"
+                           | Some (Some l) => "A" ++ show_ids false l
+                           end);
+                 ("after", vw bd)].
+
 Definition c11_run (fam : string) (args : list val) : option string :=
   if String.eqb fam "c11.map" then
     match args with
@@ -156,6 +195,11 @@ Definition c11_run (fam : string) (args : list val) : option string :=
         | Some os => Some (hist_run (as_Z k) (nat_of n) (negb (as_Z z =? 0)%Z) os)
         | None => None
         end
+    | _ => None
+    end
+  else if String.eqb fam "c11.copy" then
+    match args with
+    | [k; n; a; b] => Some (copy_line (as_Z k) (nat_of n) (nat_of a) (nat_of b))
     | _ => None
     end
   else if String.eqb fam "c11.bigbuilder" then
